@@ -623,7 +623,9 @@ func main() {
 				case "block":
 					txs := []txScript{}
 					for _, t := range s.Txs {
-						txs = append(txs, t.S)
+						if !t.Dry { // dry runs are re-inserted by block()
+							txs = append(txs, t.S)
+						}
 					}
 					outRec.Steps = append(outRec.Steps, n.block(s.Height, txs, s.Dry, s.Expected))
 				case "revert":
